@@ -35,6 +35,9 @@ class Gen:
         vals = [r.randint(-3, 12) for _ in range(n)]
         if r.random() < 0.3 and n > 1:      # duplicate values
             vals[r.randrange(n)] = vals[r.randrange(n)]
+        if r.random() < 0.08 and n > 0:     # an example may be None (a legitimate value, not an end marker)
+            for _ in range(r.choice([1, 1, 2])):
+                vals[r.randrange(n)] = None
         kind = kind or r.choice(['list', 'dict', 'dict'])
         if kind == 'list':
             return {'op': 'list', 'xs': vals}
@@ -178,10 +181,12 @@ class Gen:
                 q = {'op': s, 'ps': ps, 'style': r.choice(['method', 'function'])}
             elif s == 'zip':
                 m = r.choice([0, 1, 1, 2])
-                q = {'op': 'zip', 'ps': [p] + [self.sibling(p, rf, depth, same_len=True) for _ in range(m)]}
+                q = {'op': 'zip', 'ps': [p] + [self.sibling(p, rf, depth, same_len=r.random() > 0.12) for _ in range(m)],
+                     'style': r.choice(['method', 'method', 'function', 'function_list', 'class'])}
             elif s == 'keyZip':
                 m = r.choice([1, 1, 2])
-                q = {'op': 'keyZip', 'ps': [p] + [self.sibling(p, rf, depth, same_keys=True) for _ in range(m)]}
+                q = {'op': 'keyZip', 'ps': [p] + [self.sibling(p, rf, depth, same_keys=True) for _ in range(m)],
+                     'style': r.choice(['method', 'method', 'function', 'function_list', 'class'])}
             elif s == 'batch':
                 q = {'op': 'batch', 'n': r.choice([1, 2, 2, 3, 4, n if n > 0 else 1, n + 1]), 'dropLast': r.random() < 0.4, 'p': p}
             elif s == 'unbatch':
